@@ -242,7 +242,10 @@ def build_replay(profile='release', cfg_env=None):
         return _replay_bin[key]
     from . import replaygen
     replaygen.generate()
-    tdir = os.path.join(mirgen.SCRATCH, 'replay-target' if not cfg_env else 'replay-target-cfg')
+    serde = bool(cfg_env and cfg_env.get('VERIF_REPLAY_FEATURES') == 'serde')
+    if serde:
+        cfg_env = {k: v for k, v in cfg_env.items() if k != 'VERIF_REPLAY_FEATURES'}
+    tdir = os.path.join(mirgen.SCRATCH, 'replay-target-serde' if serde else ('replay-target' if not cfg_env else 'replay-target-cfg'))
     cmd = ['cargo', 'build', '--offline', '--target-dir', tdir]
     if profile == 'release':
         cmd.append('--release')
@@ -256,13 +259,13 @@ def build_replay(profile='release', cfg_env=None):
     import fcntl
     fcntl.flock(lock, fcntl.LOCK_EX)
     try:
-        p = subprocess.run(cmd, cwd=REPLAY_CRATE, env=env, stdout=subprocess.PIPE, stderr=subprocess.PIPE)
+        p = subprocess.run(cmd, cwd=REPLAY_CRATE + ('_serde' if serde else ''), env=env, stdout=subprocess.PIPE, stderr=subprocess.PIPE)
     finally:
         fcntl.flock(lock, fcntl.LOCK_UN)
     if p.returncode != 0:
         sys.stderr.write(p.stderr.decode()[-3000:])
         raise RuntimeError('replay build failed')
-    src = os.path.join(tdir, 'release' if profile == 'release' else 'debug', 'replay')
+    src = os.path.join(tdir, 'release' if profile == 'release' else 'debug', 'replay_serde' if serde else 'replay')
     # private copy so that a concurrent rebuild by another check cannot swap the file under us
     dst = os.path.join(mirgen.SCRATCH, 'replay-%s-%d-%d' % (profile, os.getpid(), len(_replay_bin)))
     import shutil
